@@ -11,7 +11,9 @@ import importlib
 from sa import core, selftest
 
 prop, patch = sys.argv[1], sys.argv[2]
-importlib.import_module(f"rules.{prop.lower()}")
+for f in sorted(os.listdir(os.path.join(HERE, "rules"))):
+  if f.endswith(".py") and f[:-3].split("_")[0] == prop.lower():
+    importlib.import_module(f"rules.{f[:-3]}")
 ctx0 = core.Ctx()
 ov = selftest._apply_patch(ctx0, patch)
 if ov is None:
